@@ -810,7 +810,7 @@ func judgeReplies(wire []byte, ref refOut, got []byte) (key, detail string) {
 
 // explainedByEarlyStop: the observation is exactly what a correct client shows whose negotiation
 // window ended after n < len(wire) bytes (the rest of the opening then arrives raw through Read).
-func explainedByEarlyStop(wire, tail, gotData, gotReplies []byte) (bool, int) {
+func explainedByEarlyStop(wire, tail, gotData, gotReplies []byte, norm ...func([]byte) []byte) (bool, int) {
 	for n := 0; n < len(wire); n++ {
 		r := refParse(wire[:n])
 		if !bytes.Equal(r.replies, gotReplies) {
@@ -818,6 +818,9 @@ func explainedByEarlyStop(wire, tail, gotData, gotReplies []byte) (bool, int) {
 		}
 		e := append(dataBytes(r.data, false), wire[n:]...)
 		e = append(e, tail...)
+		for _, f := range norm {
+			e = f(e)
+		}
 		if bytes.Equal(e, gotData) {
 			return true, n
 		}
@@ -1156,12 +1159,16 @@ func init() {
 			"(whole / per byte / geometric / exactly inside every IAC sequence / mixed; gaps 0-2 ms), socket timeout 600-1600 ms, read size 1-65535, " +
 			"optional plain tail sent after Open. Non-trivial = opening with >=1 two-byte command or escaped IAC and >=2 TCP segments. " +
 			"Paced family (24 quick / 300 thorough): timeout 800/1200 ms, 4-8 bursts (a request in each), first at once, pauses 25-45 % of TimeoutSocket/2, span 0.6-1.5 x timeout; " +
-			"non-trivial = a request scheduled later than TimeoutSocket/2 after the dial. Distinct = distinct descriptor hash.",
+			"non-trivial = a request scheduled later than TimeoutSocket/2 after the dial. " +
+			"Re-open family (60 quick / 600 thorough): 2-3 consecutive openings on one transport object (3/4) or one driver object (1/4, re-Open after failed Opens only), earlier openings end in parser state clean / after IAC / after IAC verb / after IAC SB / mid-subnegotiation / subnegotiation+IAC, " +
+			"by idle-window expiry, server half-close (EOF) or reset, with and without reading what was buffered and with and without Close; every opening inside the quantifier is judged against a fresh reference; " +
+			"non-trivial = an earlier opening ended inside a sequence and a later opening was judged. Distinct = distinct descriptor hash.",
 		Assumptions: []string{
 			"no subnegotiation (IAC SB ... IAC SE) and no IAC followed by a byte below 241 other than in a negotiation (outside the quantifier)",
 			"every byte of the opening reaches the client inside its negotiation window: judged only if the kernel reported the whole opening sent and acknowledged (TCP_INFO of the server socket: unacked=0, notsent=0) before Open returned (shared event counter, no durations); " +
 				"an outcome equal to a correct client's whose window ended early is a violation only if every burst was acknowledged within 60 % of the read window applying to it (timeout/4 from the dial for the first; timeout/2 from the previous burst's last write for later ones), without retransmission, canary and PSI quiet, reproduced 3 of 3 - otherwise inconclusive",
 			"linux, little-endian (struct tcp_info offsets 24/100/144)",
+			"re-open: a new connection is a new telnet stream (fresh reference; bytes of an earlier connection delivered by a later opening's reads are a violation); openings ending in a subnegotiation are outside the per-opening oracle and only serve as predecessors; via the driver the channel's CR removal is applied to the expectation and ESC is kept out of the text",
 			"an escaped IAC IAC may be delivered as one or two 0xff bytes (consistently within a case)",
 			"bytes after Open (the tail) carry no 0xff; the server half-closes after the tail so that the reads end with io.EOF instead of a quiet period",
 			"reference: RFC 854 receiver state machine (refParse, ~45 lines) over the wire bytes",
@@ -1181,12 +1188,29 @@ func init() {
 			for i := 0; i < np; i++ {
 				cs = append(cs, mon.MkCase(fmt.Sprintf("c15/p%04d", i), GenPaced(rp)))
 			}
+			nr := 60
+			if tier == "thorough" {
+				nr = 600
+			}
+			rr := rand.New(rand.NewSource(seed*32452843 + 152))
+			for i := 0; i < nr; i++ {
+				cs = append(cs, mon.MkCase(fmt.Sprintf("c15/r%04d", i), GenReopen(rr, i)))
+			}
 			for i := 0; i < n; i++ {
 				cs = append(cs, mon.MkCase(fmt.Sprintf("c15/%05d", i), GenDesc(r)))
 			}
 			return cs
 		},
 		Run: func(c mon.Case) mon.Result {
+			var probe struct {
+				Family string `json:"family"`
+			}
+			c.Decode(&probe)
+			if probe.Family == "reopen" {
+				var rd ReopenDesc
+				c.Decode(&rd)
+				return RunReopen(rd)
+			}
 			var d Desc
 			c.Decode(&d)
 			return Run(d)
